@@ -98,8 +98,9 @@ def gen_cases(rng, tier):
     if tier == "quick":
         plan = [(0, "linear"), (1, "linear"), (2, "linear"), (3, "bilinear"), (4, "bilinear"), (5, "linear"),
                 (7, "linear"), (9, "linear"), (12, "linear"), (16, "linear"), (24, "linear"), (40, "linear"),
-                (6, "linear"), (10, "linear"), (3, "linear"), (40, "linear")]
-        nvar, nresume = 3, 6
+                (6, "linear"), (10, "linear"), (3, "linear"), (40, "linear"), (2, "bilinear"), (8, "linear"),
+                (11, "linear"), (14, "linear"), (20, "linear"), (32, "linear"), (1, "bilinear"), (13, "linear")]
+        nvar, nresume = 4, 10
     else:
         plan = [(n, "linear") for n in range(0, 41)] + [(n, "linear") for n in range(1, 41, 2)] + \
                [(n, "bilinear") for n in (1, 2, 3, 4, 5)] * 3 + [(40, "linear")] * 4
